@@ -7,6 +7,7 @@ import Kodama.Model.Linkage
 import Kodama.DriverC19
 import Kodama.DriverAlloc
 import Kodama.DriverLoc
+import Kodama.DriverHeap
 namespace Kodama
 
 class Bits (α : Type) where
@@ -49,6 +50,7 @@ structure DriverState where
   s32 : Slots Float32 := ⟨[]⟩
   c19 : C19State := {}
   alloc : AllocState := {}
+  heaps : HeapSlots := {}
 
 def doCall {α} [Num α] [Bits α] (alg : Alg) (m : Method) (chk : Bool) (n : Nat) (bits : Array Nat) :
     String :=
@@ -92,6 +94,9 @@ def step (ds : DriverState) (line : String) : DriverState × String :=
   | "dend" :: rest =>
     let (c, out) := stepC19 ds.c19 rest
     ({ ds with c19 := c }, out)
+  | "heap" :: rest =>
+    let (hs, out) := DriverHeap.stepHeap ds.heaps rest
+    ({ ds with heaps := hs }, out)
   | "loc" :: rest => (ds, (Loc.stepLoc rest).getD "bad-op")
   | _ => (ds, "bad-op")
 
